@@ -139,7 +139,7 @@ def drv_write(text, prep, how="default"):
     fmt.value_column = "auto"
     fb = dict(fmt.__dict__)
     before = snap(lib)
-    if how == "default":
+    if how in ("default", "raising"):
         kw = {}
     elif how == "empty-prepend":
         kw = {"prepend_middleware": []}
@@ -147,6 +147,22 @@ def drv_write(text, prep, how="default"):
         kw = {"prepend_middleware": [make_mw("sortalpha", False, None)]}
     else:
         kw = {"unparse_stack": [make_mw("add{", False, None)]}
+    if how == "raising":
+        # an unfillable parsing_failed_comment template makes the writer raise at the first failed block (the document
+        # always holds one): library and format must be left as they were all the same
+        fmt.parsing_failed_comment = "% {n} {oops}"
+        fb = dict(fmt.__dict__)
+        t1 = t2 = None
+        try:
+            t1 = bibtexparser.write_string(lib, bibtex_format=fmt)
+        except (KeyError, IndexError, ValueError):
+            pass
+        mid = snap(lib)
+        try:
+            t2 = bibtexparser.write_string(lib, bibtex_format=fmt)
+        except (KeyError, IndexError, ValueError):
+            pass
+        return before, mid, snap(lib), t1, t2, fb, dict(fmt.__dict__)
     t1 = bibtexparser.write_string(lib, bibtex_format=fmt, **kw)
     mid = snap(lib)
     if how == "copy-prepend":
@@ -333,7 +349,7 @@ def main():
     for pn, prep in PREPS.items():
         for name in NAMES:
             chk.add_task(f"{pn}-{name}", task, prep=prep, stack=(name,))
-        for how in ("default", "empty-prepend", "copy-prepend", "stack"):
+        for how in ("default", "empty-prepend", "copy-prepend", "stack", "raising"):
             if pn in ("raw", "default"):
                 chk.add_task(f"write-{pn}-{how}", task_write, prep=prep, how=how)
     pairs = list(itertools.permutations(NAMES, 2)) if chk.tier == "thorough" else [
